@@ -83,6 +83,7 @@ class Param:
     name: str
     slots: list[Slot]
     is_tuple: bool = False
+    seq: str = "U"  # the value of a tuple-hinted position: U an exact tuple, L a list, S an instance of a tuple subclass
 
 
 @dataclass
@@ -111,13 +112,13 @@ class Ctx:
         items = []
         for p in self.params:
             if p.is_tuple:
-                items.append(f"P|{p.name}|T|{';'.join(s.spec(True) for s in p.slots)}|U:{';'.join(s.val() for s in p.slots)}")
+                items.append(f"P|{p.name}|T|{';'.join(s.spec(True) for s in p.slots)}|{p.seq}:{';'.join(s.val() for s in p.slots)}")
             else:
                 items.append(f"P|{p.name}|S|{p.slots[0].spec(True)}|{p.slots[0].val()}")
         if self.ret is not None and kind in ("func", "method"):
             p = self.ret
             if p.is_tuple:
-                items.append(f"R|T|{';'.join(s.spec(True) for s in p.slots)}|U:{';'.join(s.val() for s in p.slots)}")
+                items.append(f"R|T|{';'.join(s.spec(True) for s in p.slots)}|{p.seq}:{';'.join(s.val() for s in p.slots)}")
             else:
                 items.append(f"R|S|{p.slots[0].spec(True)}|{p.slots[0].val()}")
         if omit and kind in ("func", "method"):
@@ -258,31 +259,38 @@ def gen_ctx(rng, max_tensors=4, tuple_p=0.2, ret_p=0.3, provider_p=0.3, libs=(0,
                     spell=rng.choice(["1", "1", "4", "5", "7"])), cname
 
     all_slots = []
+    def mk_tuple(name):
+        k = rng.randint(2, 3)
+        slots = []
+        for _ in range(k):
+            if rng.random() < 0.2:
+                slots.append(Slot(None, None, False, rng.choice([("X",), ("N",), ("T", dt(0, "float32"), (1, 2))])))
+            else:
+                s, cn = mk_slot()
+                slots.append(s)
+                all_slots.append((s, cn))
+        if all(s.cls is None for s in slots):
+            s, cn = mk_slot()
+            slots[0] = s
+            all_slots.append((s, cn))
+        ctx.tags.append("tuple")
+        # (the value of a tuple-hinted position need not be an exact tuple: a list, a NamedTuple / torch.return_types instance)
+        return Param(name, slots, True, seq=rng.choice(["U", "U", "U", "L", "S"]))
+
     for i in range(nt):
         if rng.random() < tuple_p:
-            k = rng.randint(2, 3)
-            slots = []
-            for _ in range(k):
-                if rng.random() < 0.2:
-                    slots.append(Slot(None, None, False, rng.choice([("X",), ("N",), ("T", dt(0, "float32"), (1, 2))])))
-                else:
-                    s, cn = mk_slot()
-                    slots.append(s)
-                    all_slots.append((s, cn))
-            if all(s.cls is None for s in slots):
-                s, cn = mk_slot()
-                slots[0] = s
-                all_slots.append((s, cn))
-            ctx.params.append(Param(names[i], slots, True))
-            ctx.tags.append("tuple")
+            ctx.params.append(mk_tuple(names[i]))
         else:
             s, cn = mk_slot()
             all_slots.append((s, cn))
             ctx.params.append(Param(names[i], [s], False))
     if rng.random() < ret_p:
-        s, cn = mk_slot()
-        all_slots.append((s, cn))
-        ctx.ret = Param("return", [s], False)
+        if rng.random() < tuple_p:
+            ctx.ret = mk_tuple("return")
+        else:
+            s, cn = mk_slot()
+            all_slots.append((s, cn))
+            ctx.ret = Param("return", [s], False)
         ctx.tags.append("ret")
     # optional None values
     for s, _ in all_slots:
